@@ -46,7 +46,6 @@ Variable F : Type.
 Variables (zero one : F) (add mul sub : F -> F -> F) (opp : F -> F) (div : F -> F -> F).
 Variable eqb : F -> F -> bool.      (* a == b *)
 Variable ltb : F -> F -> bool.      (* a <  b *)
-Variable tiny : F -> bool.          (* fabs(v) <= zero_tol *)
 
 Notation "0" := zero.
 Notation "1" := one.
@@ -67,9 +66,9 @@ Definition vscale (y : list F) (alpha : F) : list F := map (fun yi => yi * alpha
 Definition vsub (u v : list F) : list F := map2 sub u v.
 (* Vector::inner_product : result = 0; result += values[i]*x[i] *)
 Definition inner (u v : list F) : F := fold_left add (map2 mul u v) 0.
-(* Vector::norm(2) squared : entries with fabs(val) <= zero_tol are skipped (a NaN is not skipped: see xnorm2sq) *)
+(* Vector::norm(2) squared : result += pow(val, 2) over every entry *)
 Definition norm2sq (v : list F) : F :=
-  fold_left (fun acc x => if tiny x then acc else acc + x * x) v 0.
+  fold_left (fun acc x => acc + x * x) v 0.
 
 Definition fdiv (a b : F) : option F := if eqb b 0 then None else Some (div a b).
 
@@ -291,6 +290,9 @@ Definition default_iters_seq_bicgstab (n : nat) : nat := n + 5.       (* x.size(
    in squares *)
 Definition par_cg_scale (parts : list nat) (ztol2 : F) (b : list F) : F :=
   let bn := dnorm2sq parts b in if ltb bn ztol2 then 1 else bn.
+(* the squares of the values in `res` after the distributed CG, from the model's history of <r_k, r_k> *)
+Definition par_cg_reported (parts : list nat) (ztol2 : F) (b : list F) (hist : list F) : list F :=
+  map (fun h => div h (par_cg_scale parts ztol2 b)) hist.
 
 End Vec.
 Arguments cg_x {F}. Arguments cg_r {F}. Arguments cg_p {F}. Arguments cg_rr {F}. Arguments cg_iter {F}.
@@ -308,8 +310,6 @@ Variable F : Type.
 Variables (zero : F) (add mul div : F -> F -> F).
 Variable eqb : F -> F -> bool.
 Variable ltb : F -> F -> bool.
-Variable tiny : F -> bool.
-
 Inductive xval : Type := Fin (q : F) | NaNv.
 
 Definition xadd (a b : xval) : xval := match a, b with Fin x, Fin y => Fin (add x y) | _, _ => NaNv end.
@@ -318,14 +318,12 @@ Definition xdiv (a b : xval) : xval :=
   match a, b with Fin x, Fin y => if eqb y zero then NaNv else Fin (div x y) | _, _ => NaNv end.
 (* a > b : false as soon as one side is not finite *)
 Definition xgt (a b : xval) : bool := match a, b with Fin x, Fin y => ltb y x | _, _ => false end.
-(* fabs(v) <= zero_tol : false for NaN *)
-Definition xtiny (a : xval) : bool := match a with Fin x => tiny x | NaNv => false end.
 Definition xfinite (a : xval) : bool := match a with Fin _ => true | NaNv => false end.
 
 (* Vector::inner_product and Vector::norm(2)^2 over extended values *)
 Definition xinner (u v : list xval) : xval := fold_left xadd (map2 xmul u v) (Fin zero).
 Definition xnorm2sq (v : list xval) : xval :=
-  fold_left (fun acc x => if xtiny x then acc else xadd acc (xmul x x)) v (Fin zero).
+  fold_left (fun acc x => xadd acc (xmul x x)) v (Fin zero).
 (* ParVector versions *)
 Definition xallreduce (l : list xval) : xval := fold_right xadd (Fin zero) l.
 Definition xdinner (parts : list nat) (u v : list xval) : xval :=
